@@ -3344,17 +3344,23 @@ class RegexMatch(Match):
         if nfdfa_state in self.dfa_2.finishing_states:
             into.mark_accepting(new_state)
 
+        # Two inverted sets can be disjoint (when together they exclude every byte); only one of them can become the Else
+        # transition, the others are written out as the bytes they match. The choice does not depend on iteration order.
+        inverted_sources = sorted((x for x in transitions if isinstance(x, InvertedRegexCharClass)), key=lambda x: (len(x.chars), sorted(x.chars)))
+
         for source, target in transitions.items():
+            upstream_meta = nfdfa_state.transition_dbg_metas[source]
+            if isinstance(source, InvertedRegexCharClass) and source is not inverted_sources[0]:
+                source = RegexCharClass(chr(x) for x in range(256) if chr(x) not in source.chars)
             if isinstance(source, InvertedRegexCharClass):
-                # TODO: handle multiple of these
                 # Convert to a normal set
                 new_transitions[source.chars | frozenset((DFTransition.End,))] = (else_path, False)
                 new_transitions[frozenset((DFTransition.Else,))] = (self._create_dfa_state(target, into, False, else_path), target in self.dfa_2.finishing_states)
-                new_transition_upstreams[DFTransition.Else] = nfdfa_state.transition_dbg_metas[source]
+                new_transition_upstreams[DFTransition.Else] = upstream_meta
             else:
                 new_transitions[source.chars] = (self._create_dfa_state(target, into, False, else_path), target in self.dfa_2.finishing_states)
                 for i in source.chars:
-                    new_transition_upstreams[i] = nfdfa_state.transition_dbg_metas[source]
+                    new_transition_upstreams[i] = upstream_meta
 
         # Simplify
         new_transitions_inverse = defaultdict(list) 
